@@ -101,7 +101,9 @@ def vp_group_sql(rule: ViralPropagationRule, col_ref: str) -> str:
     if rule.aggregate_function is not None:
         return f"{_AGG_GROUP[rule.aggregate_function]}({col_ref})"
     case = _enumerated_case(rule, "acc", "x")
-    return f"list_reduce(list({col_ref}), (acc, x) -> {case})"
+    # Fold the values in a canonical (sorted) order so that the result depends only on
+    # the set of combined values, never on the physical order of the datapoints.
+    return f"list_reduce(list({col_ref} ORDER BY {col_ref}), (acc, x) -> {case})"
 
 
 def vp_group_sql_windowed(rule: ViralPropagationRule, col_ref: str, over_clause: str) -> str:
